@@ -76,6 +76,8 @@ MUST_FAIL = [
     ("fstring-leak", "AR", "_cleanup(f'{{{X}}}')"),
     ("return-early", "A", "if {X} is not None:\n    return None\n{X}[0] = np.nan"),
     ("rebind-gen", "T", "gen = None"),
+    ("early-return", "TA", "if self.run_params is None:\n    return None"),
+    ("generator", "T", "if self.run_params is None:\n    yield None"),
 ]
 # {H}: the criteria dictionary, {TH}: a threshold variable read from it (only where the source has them)
 MUST_FAIL_HC = [
